@@ -24,6 +24,8 @@ func genEmit() {
 		{"pkg/protocol/header.go", "ResponseHeader", "AppendBytes", "responseHeader"},
 		{"pkg/protocol/trailer.go", "Trailer", "AppendBytes", "trailer"},
 		{"pkg/protocol/header.go", "", "appendHeaderLine", "headerLine"},
+		// /repo 910b0dd: the two parts of the request line (method, request target) are written by this function
+		{"pkg/protocol/header.go", "", "appendRequestLinePart", "requestLinePart"},
 	} {
 		fset, f := parseFile(t.file)
 		var fd *ast.FuncDecl
